@@ -2,7 +2,7 @@ import os, sys, json
 sys.path.insert(0, os.path.dirname(__file__))
 import ctrl_common as cc
 
-SIGS = {'ctrl-memory-differs-from-status','ctrl-annotation-differs-from-memory','restart-changed-admissible-status','restart-preferdual-additional-steals','restart-recorded-service-reallocates-before-victim','ctrl-does-not-settle','status-exclusivity','starved-though-free-address-admissible'}
+SIGS = {'ctrl-memory-differs-from-status','ctrl-annotation-differs-from-memory','restart-changed-admissible-status','restart-preferdual-additional-steals','restart-recorded-service-reallocates-before-victim','ctrl-does-not-settle','ctrl-exceeds-proved-settling-bound','status-exclusivity','starved-though-free-address-admissible'}
 
 def run(ctx):
     ctx.coq_build(["Properties/C06.v"] + cc.COQ_FILES)
